@@ -314,14 +314,14 @@ func seqOracles(c Case, obs Obs) []fail {
 		}
 
 	case "join":
-		a, b := t.Kids[0], t.Kids[1]
-		if a.W != "base" || b.W != "base" {
-			break
+		for _, k := range t.Kids {
+			if k.W != "base" {
+				return fs
+			}
 		}
-		ia, ib := 0, 0 // script positions
-		cancelled := false
 		if c.Kind == "producer" {
 			// first until io.EOF, then second; once the second has run the first never runs again
+			a, b := t.Kids[0], t.Kids[1]
 			seenB := false
 			for _, e := range obs.Log {
 				if e[0] == int64(b.ID) {
@@ -334,6 +334,12 @@ func seqOracles(c Case, obs Obs) []fail {
 			}
 			break
 		}
+		// documented: the parts run in order; Worker/Processor stop at the first error; Worker/Processor/Operation do not
+		// start a further part once the context has expired; Handler/Future have no context and run every part
+		stopsOnErr := c.Kind == "worker" || c.Kind == "processor"
+		checksCtx := c.Kind == "worker" || c.Kind == "processor" || c.Kind == "operation"
+		pos := make([]int, len(t.Kids))
+		cancelled := false
 		li := 0
 		for call := 0; call < c.Calls; call++ {
 			var ids []int64
@@ -341,29 +347,30 @@ func seqOracles(c Case, obs Obs) []fail {
 				ids = append(ids, obs.Log[li][0])
 				li++
 			}
-			// documented: parts run in order; Worker/Processor stop at the first error; a part does not start once the context has expired
-			want := []int64{int64(a.ID)}
-			oa := outcomeAt(a, ia)
-			ia++
-			if oa.K == "cancel" {
-				cancelled = true
-			}
-			runB := oa.K != "panic"
-			if (c.Kind == "worker" || c.Kind == "processor") && !success(oa) {
-				runB = false
-			}
-			if (c.Kind == "worker" || c.Kind == "processor" || c.Kind == "operation") && cancelled {
-				runB = false
-			}
-			if runB {
-				want = append(want, int64(b.ID))
-				if outcomeAt(b, ib).K == "cancel" {
+			var want []int64
+			stoppedByCtx := -1
+			for j, k := range t.Kids {
+				if j > 0 && checksCtx && cancelled {
+					stoppedByCtx = j
+					break
+				}
+				want = append(want, int64(k.ID))
+				o := outcomeAt(k, pos[j])
+				pos[j]++
+				if o.K == "cancel" {
 					cancelled = true
 				}
-				ib++
+				if o.K == "panic" || (stopsOnErr && !success(o)) {
+					break
+				}
 			}
 			if fmt.Sprint(ids) != fmt.Sprint(want) {
-				bad("Join:order", "%s.Join: call %d executed parts %v, documented order gives %v", name, call, ids, want)
+				if stoppedByCtx >= 0 && len(ids) > len(want) && fmt.Sprint(ids[:len(want)]) == fmt.Sprint(want) {
+					bad("Join:ran-after-cancel", "%s.Join of %d parts: in call %d part %d ran although the context had expired before it started (executed %v, documented %v)",
+						name, len(t.Kids), call, stoppedByCtx, ids, want)
+				} else {
+					bad("Join:order", "%s.Join: call %d executed parts %v, documented order gives %v", name, call, ids, want)
+				}
 				break
 			}
 		}
